@@ -226,6 +226,14 @@ Lemma bind_ok {A B} (r : res A) (f : A -> res B) b :
   bind r f = Ok b -> exists a, r = Ok a /\ f a = Ok b.
 Proof. destruct r as [a|t|t]; cbn; intros H; try discriminate. exists a. split; [reflexivity | exact H]. Qed.
 
+(* peel leading guards [if c then Internal/Usage _ else ...] of a successful operation; robust
+   against guards being added to the model *)
+Ltac guards H :=
+  repeat match type of H with
+         | (if ?c then Internal _ else _) = Ok _ => destruct c; [discriminate H|]
+         | (if ?c then Usage _ else _) = Ok _ => destruct c; [discriminate H|]
+         end.
+
 Lemma foldM_rel {A S} (R : S -> S -> Prop) (f : S -> A -> res S) :
   (forall s, R s s) -> (forall a b c, R a b -> R b c -> R a c) ->
   forall l, (forall s a s', In a l -> f s a = Ok s' -> R s s') ->
@@ -295,7 +303,7 @@ Lemma set_sstate_frame l new d s s' : set_sstate l new d s = Ok s' ->
   frame s s' /\ map sl (steps s') = map sl (steps s).
 Proof.
   unfold set_sstate. destruct (find_step l s) as [r|]; [|intros H; inversion H; subst; split; [apply frame_refl | reflexivity]].
-  destruct (d && negb (sstate_eqb new SPending)); [discriminate|]. intros H. inversion H. subst s'. clear H.
+  intros H. guards H. inversion H. subst s'. clear H.
   split.
   - constructor; try reflexivity. cbn. apply Forall2_refl. apply Rf_refl.
   - cbn. rewrite map_map. apply map_ext. intros x. destruct (str_eqb (sl x) l); reflexivity.
@@ -305,7 +313,7 @@ Lemma set_sstate_pending_rel l d s s' : set_sstate l SPending d s = Ok s' -> mar
 Proof.
   intros H. pose proof (set_sstate_frame _ _ _ _ _ H) as [Hf _]. constructor; [exact Hf|].
   unfold set_sstate in H. destruct (find_step l s) as [r|]; [|inversion H; subst; apply Forall2_refl; apply Rs_refl].
-  destruct (d && negb (sstate_eqb SPending SPending)); [discriminate|]. inversion H. subst s'. cbn.
+  guards H. inversion H. subst s'. cbn.
   apply Forall2_map_r. intros x. destruct (str_eqb (sl x) l); [|apply Rs_refl].
   split; [reflexivity | right; reflexivity].
 Qed.
@@ -313,8 +321,7 @@ Qed.
 Lemma set_fstate_outdated_rel f s s' : set_fstate f FOutdated s = Ok s' -> mark_rel s s'.
 Proof.
   unfold set_fstate, set_fstate_hash. destruct (find_file f s) as [r|]; [|intros H; inversion H; subst; apply mark_rel_refl].
-  destruct (needs_hash FOutdated && _); [discriminate|].
-  destruct (fstate_eqb FOutdated FUndeclared && _); [discriminate|]. intros H. inversion H. subst s'. clear H.
+  intros H. guards H. inversion H. subst s'. clear H.
   constructor; [|cbn; apply Forall2_refl; apply Rs_refl].
   constructor; try reflexivity. cbn. apply Forall2_map_r. intros x.
   destruct (str_eqb (fl x) f); [|apply Rf_refl]. split; [reflexivity | right; reflexivity].
@@ -376,7 +383,7 @@ Lemma sstate_of_set l new d s s' : set_sstate l new d s = Ok s' ->
                              else sstate_of x s.
 Proof.
   unfold set_sstate. destruct (find_step l s) as [r0|] eqn:E0.
-  - destruct (d && negb (sstate_eqb new SPending)); [discriminate|]. intros H. inversion H. subst s'. clear H.
+  - intros H. guards H. inversion H. subst s'. clear H.
     intros x. unfold sstate_of, find_step, upd_step. cbn [steps set_steps].
     rewrite (find_map_upd sl); [|intros r; destruct (str_eqb (sl r) l); reflexivity].
     destruct (find (fun r => str_eqb (sl r) x) (steps s)) as [r|] eqn:Ex.
@@ -519,7 +526,7 @@ Proof.
     apply (IH s1 s' H2); [|exact Hin]. clear IH H2 Hin r'. intros r1 Hin1 Hs1.
     destruct (sel (sst r0)) eqn:E0.
     + unfold set_sstate_raw, set_sstate in H1. destruct (find_step (sl r0) s) as [rr|] eqn:Ef.
-      * destruct (sdef rr && negb (sstate_eqb new SPending)); [discriminate|]. inversion H1. subst s1. clear H1.
+      * guards H1. inversion H1. subst s1. clear H1.
         cbn [steps upd_step set_steps] in Hin1. apply in_map_iff in Hin1. destruct Hin1 as [q [Hq Hinq]].
         destruct (str_eqb (sl q) (sl r0)) eqn:Eq.
         -- subst r1. cbn [sst] in Hs1. congruence.
@@ -755,8 +762,7 @@ Lemma fstate_of_set_outdated f s s' : set_fstate f FOutdated s = Ok s' ->
   fstate_of f s <> None -> fstate_of f s' = Some FOutdated.
 Proof.
   unfold set_fstate, set_fstate_hash, fstate_of. destruct (find_file f s) as [r|] eqn:E; [|intros _ H; contradiction].
-  destruct (needs_hash FOutdated && _); [discriminate|].
-  destruct (fstate_eqb FOutdated FUndeclared && _); [discriminate|]. intros H _. inversion H. subst s'.
+  intros H _. guards H. inversion H. subst s'.
   unfold find_file, upd_file. cbn [files set_files].
   rewrite (find_map_upd fl); [|intros r0; destruct (str_eqb (fl r0) f); reflexivity].
   unfold find_file in E. rewrite E. pose proof (find_some _ _ E) as [_ El]. rewrite El. reflexivity.
@@ -849,9 +855,9 @@ Proof.
   - apply set_sstate_frame in H. apply H.
   - apply set_sstate_frame in H. apply H.
   - apply mark_step_pending_rel in H. apply H.
-  - unfold hold in H. destruct (negb _); [discriminate|]. inversion H. apply upd_step_frame.
+  - unfold hold in H. guards H. inversion H. apply upd_step_frame.
   - unfold release in H. destruct (find_step label s); [|discriminate].
-    destruct (shold s0 =? 0); [discriminate|]. inversion H. apply upd_step_frame.
+    guards H. inversion H. apply upd_step_frame.
 Qed.
 
 (* ------------------------------------------------------------------------------------------ *)
@@ -985,8 +991,7 @@ Lemma set_fstate_hash_files p ns hh s s' : set_fstate_hash p ns hh s = Ok s' -> 
   nodes s' = nodes s /\ Forall2 (Ru (fun l => l <> p)) (files s) (files s').
 Proof.
   unfold set_fstate_hash. destruct (find_file p s) as [r|] eqn:E.
-  - destruct (needs_hash ns && _); [discriminate|]. destruct (fstate_eqb ns FUndeclared && _); [discriminate|].
-    intros H Hns. inversion H. subst s'. split; [reflexivity|]. cbn. apply Forall2_map_r. intros x.
+  - intros H Hns. guards H. inversion H. subst s'. split; [reflexivity|]. cbn. apply Forall2_map_r. intros x.
     destruct (str_eqb (fl x) p) eqn:Ex.
     + split; [reflexivity|]. cbn. intros C. contradiction.
     + split; [reflexivity|]. intros C. split; [exact C|]. intros C2. subst p. rewrite str_eqb_refl in Ex. discriminate.
@@ -1204,7 +1209,7 @@ Qed.
 Lemma set_sstate_raw_files l new s s' : set_sstate_raw l new s = Ok s' -> files s' = files s.
 Proof.
   unfold set_sstate_raw, set_sstate. destruct (find_step l s) as [r|]; [|intros H; inversion H; reflexivity].
-  destruct (_ && _); [discriminate|]. intros H. inversion H. reflexivity.
+  intros H. guards H. inversion H. reflexivity.
 Qed.
 
 Lemma revert_optional_spec opt s s' q : revert_optional opt s = Ok (s', q) ->
